@@ -120,6 +120,8 @@ func c13Reply(p *chk.Prog, r *chk.Report) {
 					nRet++
 					e := form.E
 					switch {
+					case form.At.B != nil && g.Dominated(form.At, readFailed):
+						// nothing was read: whatever reason is reported (worked out by a helper, say), no request is dropped
 					case e == nil:
 						okDrop, at = false, rt.Pos()
 					case verdict(e):
@@ -354,7 +356,31 @@ func c13Refcount(p *chk.Prog, r *chk.Report) {
 		// override path
 		ov := g.Find(f.IsAssignPat("RECV.ips[N][I]", "A", chk.H("N", name), chk.H("A", adv)))
 		okOv := len(ov) == 1
-		if okOv {
+		if len(ov) == 0 {
+			// the stored element replaced through a pointer to it: p := &L[i] with L the service's list (a.ips[name]
+			// itself or the slice value read from it, which shares its elements); *p = adv
+			isList := func(e ast.Expr) bool {
+				return f.MatchWith("RECV.ips[N]", e, chk.H("N", name)) != nil || definedBy(g, "RECV.ips[N]", chk.H("N", name))(e)
+			}
+			ovp := g.Find(func(n ast.Node) bool {
+				as, isAs := n.(*ast.AssignStmt)
+				if !isAs || len(as.Lhs) != 1 || len(as.Rhs) != 1 || !adv(as.Rhs[0]) {
+					return false
+				}
+				st, isStar := ast.Unparen(as.Lhs[0]).(*ast.StarExpr)
+				return isStar && definedBy(g, "&L[I]", chk.H("L", isList))(st.X)
+			})
+			if len(ovp) == 1 {
+				ptr := ovp[0].Node.(*ast.AssignStmt).Lhs[0].(*ast.StarExpr).X
+				samePtr := func(e ast.Expr) bool { return f.SameExpr(e, ptr) }
+				okp := g.Dominated(ovp[0], chk.GAnyOf(g.GPat(true, "A.ip.Equal(EL.ip)", chk.H("A", adv), chk.H("EL", samePtr)), g.GPat(true, "EL.ip.Equal(A.ip)", chk.H("A", adv), chk.H("EL", samePtr))))
+				w := (&chk.Walk{G: g, From: ovp[0], Hit: func(n ast.Node) bool { return app(n) || inc(n) }}).Run()
+				x.Check("SetBalancer:override-updates-stored-element", f.Pos(), okp && !w.Found, "", "re-announcing an address the service already holds does not replace the stored advertisement (a changed interface set is ignored) or is counted again")
+				okOv = true
+				ov = nil
+			}
+		}
+		if okOv && len(ov) == 1 {
 			stored := elementOf(f, func(e ast.Expr) bool { return f.MatchWith("RECV.ips[N]", e, chk.H("N", name)) != nil })
 			sameIP := func(el func(ast.Expr) bool) chk.Guard {
 				return chk.GAnyOf(g.GPat(true, "A.ip.Equal(EL.ip)", chk.H("A", adv), chk.H("EL", el)), g.GPat(true, "EL.ip.Equal(A.ip)", chk.H("A", adv), chk.H("EL", el)))
@@ -370,7 +396,9 @@ func c13Refcount(p *chk.Prog, r *chk.Report) {
 			okOv = okOv && !w.Found
 			// the index is the loop variable of a loop over the service's advertisements
 		}
-		x.Check("SetBalancer:override-updates-stored-element", f.Pos(), okOv, "", "re-announcing an address the service already holds does not replace the stored advertisement (a changed interface set is ignored) or is counted again")
+		if len(ov) == 1 || !okOv {
+			x.Check("SetBalancer:override-updates-stored-element", f.Pos(), okOv, "", "re-announcing an address the service already holds does not replace the stored advertisement (a changed interface set is ignored) or is counted again")
+		}
 		// append only when no equal address is stored: the append is after the loop
 		if len(apps) == 1 {
 			okScan := false
